@@ -610,6 +610,9 @@ func runPlain(c Case) M {
 				fi2 := fi
 				H2 := []M{}
 				s2 := osmpbf.New(context.Background(), bytes.NewReader(fi.Data[off:]), c.Cfg.N)
+				if (len(seen)+c.Variant)%2 == 0 {
+					s2.Header() // asking a resumed scanner for its (absent) header must not disturb the scan
+				}
 				objs := [][]int{}
 				for s2.Scan() {
 					b, i := 0, 0
